@@ -245,6 +245,35 @@ fn check_sequence_spelled<F: Family>(pkts: Vec<F::Packet>, big: bool, spelled: b
         }
     }
 
+    // the public header-first path over one slice that holds the whole stream: decode_raw_header, Header::new_with, then
+    // build_empty_packet or PollHeader::block_decode on what follows. It has to take its own frame and leave the rest.
+    {
+        use mqtt_proto::PollHeader;
+        let mut rd: &[u8] = &stream;
+        for (i, p) in pkts.iter().enumerate() {
+            let before = rd.len();
+            let (ctl, rl) = match futures_lite::future::block_on(mqtt_proto::decode_raw_header(&mut rd)) {
+                Ok(x) => x,
+                Err(e) => viol!("decode_raw_header at packet {} of {} failed: {:?}", i + 1, n, e),
+            };
+            let h = match <F::Header as PollHeader>::new_with(ctl, rl) {
+                Ok(h) => h,
+                Err(e) => viol!("Header::new_with({:#04x}, {}) failed on packet {} of {}: {:?}", ctl, rl, i + 1, n, e),
+            };
+            let q = match h.build_empty_packet() {
+                Some(q) => q,
+                None => match h.block_decode(&mut rd) {
+                    Ok(q) => q,
+                    Err(e) => viol!("Header::block_decode on packet {} of {} (followed by the rest of the stream) failed: {:?}; expected {}", i + 1, n, e, fam::render(p)),
+                },
+            };
+            ensure!(q == *p, "header-first decoding (block_decode over the whole stream slice) returned {} for packet {} of {}, expected {}", fam::render(&q), i + 1, n, fam::render(p));
+            ensure!(before - rd.len() == encs[i].len(), "header-first decoding (block_decode over the whole stream slice) consumed {} bytes for packet {} of {}, which is {} bytes long", before - rd.len(), i + 1, n, encs[i].len());
+        }
+        ensure!(rd.is_empty(), "header-first decoding left {} bytes of the stream", rd.len());
+        ctx.label("header-first-block-decode");
+    }
+
     let mut types: Vec<usize> = pkts.iter().map(|p| F::type_index(p)).collect();
     types.sort_unstable();
     types.dedup();
@@ -399,6 +428,7 @@ pub fn run(env: &mut Env) -> RunResult {
     env.require("c08.sized.v5", "contains-4-byte-header");
     for s in ["c08.sequence.v3", "c08.sequence.v5"] {
         env.require(s, "contains-body-less-packet");
+        env.require(s, "header-first-block-decode");
         env.require(s, "sequence-length:1");
         env.require(s, "sequence-length:5");
         if env.thorough() {
